@@ -75,6 +75,12 @@ def run_job(spec):
     """worker: one (harness, params, shard)"""
     os.environ['NUMBA_DISABLE_JIT'] = '1'
     os.environ[GUARD] = '1'
+    try:
+        import faulthandler
+        import signal
+        faulthandler.register(signal.SIGUSR1, all_threads=True)
+    except Exception:
+        pass
     t0 = time.time()
     out = dict(spec=spec, paths=0, vacuous_paths=0, aborted=0, goals=0, unsat=0, sat=0, unknown=0,
                nontrivial_paths=0, covers=[], cex=[], samples=[], errors=[], path_cap_hit=False,
